@@ -618,12 +618,14 @@ func ruleBklMainFormat(p *Prog, r *Result) {
 	})
 	_ = inputs
 	// library: OutputToFile falls back to the path's extension, OutputToWriter to json-pretty, Output looks the codec up
-	of := newPSRule(p, r, "C05.choice", "bkl.(*Parser).OutputToFile", PSOpts{NoInline: map[string]bool{"bkl.(*Parser).OutputToWriter": true, "bkl.ext": true}})
-	of.all("OutputToFile: an empty format means the output path's extension", selectPaths(of.paths, func(pa *Path) bool { return hasCallEffect(pa, "bkl.(*Parser).OutputToWriter") }), "format == \"\" -> ext(path)", func(pa *Path) (bool, string) {
+	of := newPSRule(p, r, "C05.choice", "bkl.(*Parser).OutputToFile", PSOpts{NoInline: map[string]bool{"bkl.(*Parser).OutputToWriter": true, "bkl.(*Parser).Output": true, "bkl.ext": true}})
+	of.all("OutputToFile: an empty format means the output path's extension", selectPaths(of.paths, func(pa *Path) bool {
+		return hasCallEffect(pa, "bkl.(*Parser).OutputToWriter") || hasCallEffect(pa, "bkl.(*Parser).Output")
+	}), "format == \"\" -> ext(path)", func(pa *Path) (bool, string) {
 		empty := guardPol(pa, "streq", mParam("format"), q(""))
 		for _, e := range pa.Effects {
-			if e.Callee == "bkl.(*Parser).OutputToWriter" {
-				f := e.Args[2]
+			if e.Callee == "bkl.(*Parser).OutputToWriter" || e.Callee == "bkl.(*Parser).Output" {
+				f := e.Args[len(e.Args)-1] // the format is the last argument of either encoder entry point
 				if empty == 1 && !mCall("bkl.ext", mParam("path"))(f) {
 					return false, "with an empty format the extension of the output path is not used: " + f.String()
 				}
